@@ -630,9 +630,7 @@ func checkBuild(c Case, r *vf.R) error {
 }
 
 func TestBuild(t *testing.T) {
-	vf.Run(t, vf.Prop[Case]{Sub: "build", Gen: genCase, Check: checkBuild, Cases: vf.N(300, 5000),
-		// 8 hangs in 850000 cases of the thorough tier
-		MaxRate: map[string]float64{"F10h": 0.0001}})
+	vf.Run(t, vf.Prop[Case]{Sub: "build", Gen: genCase, Check: checkBuild, Cases: vf.N(300, 5000)})
 }
 
 // ---------------- arbitrary float64 arguments: builder calls must not panic ----------------
